@@ -58,7 +58,7 @@ def variants(case):
     out = []
     if case["mode"] == "box":
         L = b["size"][case["buf"]][0] * b["size"][case["buf"]][1]
-        for d1, d2, dl in itertools.product((-2, -1, 0, 1, 2), (-2, -1, 0, 1, 2), (-1, 0, 1)):
+        for d1, d2, dl in itertools.product((-2, -1, 0, 1, 2), (-2, -1, 0, 1, 2), (0,)):
             kw = dict(b["kw"])
             kw[k1] = v1 + d1
             if k2 != k1:
@@ -148,6 +148,21 @@ def run_blas_variant(vc, stats, force=False):
 def blas_box_oracle(case, stats=None):
     for vc in variants(case):
         run_blas_variant(vc, stats)
+        # the decision boundary of every buffer: exactly long enough / one element short (other arguments as they are)
+        if any(isinstance(v, int) and not (-2 ** 31 <= v <= 2 ** 31 - 1) for v in vc["kw"].values()):
+            continue
+        ops = sb.resolve(vc)[2]
+        if not ops or sb.int_overflow(vc, ops):
+            continue
+        for o in ops:
+            nd = o.need()
+            if nd <= 0 or nd > 4096:
+                continue
+            for d in (0, -1):
+                size = dict(vc["size"])
+                size[o.name] = [nd + d, 1]
+                if size[o.name] != list(vc["size"][o.name]) or True:
+                    run_blas_variant(dict(vc, size=size), stats)
 
 
 # ------------------------------------------------------------------ lapack_box
@@ -460,6 +475,11 @@ def base_strategy(draw):
              ints={k: draw(st.sampled_from([-1, 0, 1, 2, 3, 5, -2, 2 ** 20, 2 ** 31, -2 ** 31 - 1, 2 ** 63])) for k in
                    draw(st.lists(st.sampled_from(["m", "n", "incx", "incy", "offsetA", "offsetx", "offsety"]), max_size=3, unique=True))},
              consistent=draw(st.booleans()))
+    if f in ("gemv", "symv") and draw(st.booleans()):
+        # strided form: x and y exactly as long as their footprints, so that a wrong start index leaves the buffer
+        c["strided"] = dict(incx=draw(st.sampled_from([1, -1, 2, -2])), incy=draw(st.sampled_from([1, -1, 2, -2])),
+                            offsetx=draw(st.integers(0, 2)), offsety=draw(st.integers(0, 2)))
+        c["consistent"] = True
     return c
 
 
@@ -493,6 +513,20 @@ def base_oracle(case, stats=None):
         if f == "gemm":
             base.gemm(A, B, C, transA=case["transA"], transB=case["transB"], **kw)
             out = C
+        elif f == "gemv" and case.get("strided"):
+            sd = case["strided"]
+            lx, ly = (A.size[1], A.size[0]) if case["transA"] == "N" else A.size
+            x = matrix(1.5, (sd["offsetx"] + (1 + (lx - 1) * abs(sd["incx"]) if lx else 0), 1), A.typecode)
+            y = matrix(0.5, (sd["offsety"] + (1 + (ly - 1) * abs(sd["incy"]) if ly else 0), 1), A.typecode)
+            base.gemv(A, x, y, trans=case["transA"], **dict(kw, **sd))
+            out = y
+        elif f == "symv" and case.get("strided") and A.size[0] == A.size[1]:
+            sd = case["strided"]
+            n_ = A.size[0]
+            x = matrix(1.5, (sd["offsetx"] + (1 + (n_ - 1) * abs(sd["incx"]) if n_ else 0), 1), A.typecode)
+            y = matrix(0.5, (sd["offsety"] + (1 + (n_ - 1) * abs(sd["incy"]) if n_ else 0), 1), A.typecode)
+            base.symv(A, x, y, uplo=case["uplo"], **dict(kw, **sd))
+            out = y
         elif f == "gemv":
             x, y = (B if isinstance(B, matrix) else matrix(B)), (C if isinstance(C, matrix) else matrix(C))
             base.gemv(A, x, y, trans=case["transA"], **dict(kw, **case["ints"]))
@@ -643,7 +677,7 @@ def index_oracle(case, stats=None):
 def search(ctx, stats):
     part = ctx.part
     if part == "blas_box":
-        v = run_given(blas_box_strategy(), lambda c: blas_box_oracle(c, stats), ctx.seed, ctx.n(4000, 150000), stats, journal=ctx.journal)
+        v = run_given(blas_box_strategy(), lambda c: blas_box_oracle(c, stats), ctx.seed, ctx.n(2500, 100000), stats, journal=ctx.journal)
     elif part == "lapack_box":
         v = run_given(lapack_box_strategy(), lambda c: lapack_box_oracle(c, stats), ctx.seed, ctx.n(12000, 400000), stats, journal=ctx.journal)
     elif part == "base_asan":
